@@ -137,6 +137,32 @@ def form_feeds(text, rng):
     return derive.replace_spans(text, spans) if spans else None
 
 
+def form_feeds_between_tokens(text, rng):
+    """A form feed inside (or as) the whitespace between two tokens of one line, at any bracket depth, also as the
+    first character of a continuation line and directly after a backslash join."""
+    toks, P = _toks(text)
+    if not toks:
+        return None
+    spans = []
+    sig = (T.NAME, T.NUMBER, T.STRING, T.OP)
+    for k in range(len(toks) - 1):
+        a, b = toks[k], toks[k + 1]
+        if a.type not in sig or b.type not in sig or rng.random() > .12:
+            continue
+        i, j = P.idx(a.end), P.idx(b.start)
+        gap = text[i:j]
+        if a.end[0] == b.start[0]:
+            if gap and gap.strip(" \t") == "":
+                spans.append((i, j, rng.choice(["\x0c", "\x0c ", " \x0c", "\t\x0c\t", "\x0c\x0c"])))
+            elif not gap and (a.type == T.OP or b.type == T.OP) and not (a.type == T.OP and b.type == T.OP) and "." not in (a.string, b.string):
+                spans.append((i, j, "\x0c"))
+        elif "#" not in gap and gap.strip(" \t\n\\") == "":
+            # continuation line (inside brackets or after a backslash join): form feed opens the next physical line
+            nl = gap.rfind("\n")
+            spans.append((i + nl + 1, i + nl + 1, "\x0c"))
+    return derive.replace_spans(text, spans) if spans else None
+
+
 def bom(text, rng):
     return "﻿" + text if not text.startswith("﻿") else None
 
@@ -295,6 +321,7 @@ REWRITES = {
     "eol_comments": eol_comments,
     "reindent": reindent,
     "form_feeds": form_feeds,
+    "form_feeds_between_tokens": form_feeds_between_tokens,
     "backslash_joins": backslash_joins,
     "bracket_newlines": bracket_newlines,
     "token_spacing": spaces_between_tokens,
@@ -305,7 +332,7 @@ REWRITES = {
 }
 # rewrites that need an LF-only, form-feed-free input come first in a composition
 ORDER = ["redundant_parens", "reindent", "backslash_joins", "bracket_newlines", "token_spacing", "trailing_blanks", "blank_comment_lines",
-         "eol_comments", "form_feeds", "eof_whitespace", "bom", "newline_style"]
+         "eol_comments", "form_feeds_between_tokens", "form_feeds", "eof_whitespace", "bom", "newline_style"]
 
 
 def compose(text, rng, k=None, names=None):
